@@ -45,8 +45,13 @@ func verifRecordMapRangers(on bool)                     {}
 func verifMapRangers() []string                         { return nil }
 func verifSetNumCPU(n int)                              {}
 func verifGoOrder(perm []int)                           {}
+func verifMapOrderBudget(n int)                         {}
 func verifTraceStart()                                  {}
 func verifTraceEvent(kind string)                       {}
 func verifScheduleCheck(cpus int, stepEncoding int)                       {}
 func verifTraceAccesses(on bool)                        {}
 func verifRaceCheck()                                   {}
+
+func verifColorOutput(on bool)     {}
+func verifCaptureOutput(on bool)   {}
+func verifCapturedParts() []string { return nil }
